@@ -208,6 +208,52 @@ def dtypes(case):
   return {'evals': evals, 'nontrivial': True, 'outcome': [c, ldt]}
 
 
+def protocol(case):
+  """Metric objects as Python values: copies / pickles / replace() of a metric are equal to it, hash alike and compute the
+  same statistic; two metrics of the family that compare EQUAL must have the same definition (the jitted evaluation is
+  keyed on equality and hash, so an equality that merges differently defined metrics makes one silently compute the other)."""
+  import copy
+  import pickle
+  import jax.numpy as jnp
+  fam, c = case['family'], 3
+  specs = specs_cls(c, False) if fam == 'cls' else specs_seq(c, False)
+  if fam == 'cls':
+    probes = [({'y': 1, 'domain_id': 1}, [0.5, 2.0, 2.0]), ({'y': 2, 'domain_id': 0}, [3.0, -1.0, 0.0]), ({'y': 0, 'domain_id': 1}, [0.0, 0.0, 0.0])]
+  else:
+    probes = [({'y': [1, 2, 0], 'domain_id': 1}, [[0., 3., 1.], [2., 1., 2.], [5., 0., 0.]]),
+              ({'y': [2, 0, 1], 'domain_id': 0}, [[1., 1., 1.], [0., 2., 2.], [0., 4., 3.]])]
+  built = [mr.build(sp) for sp in specs]
+  refs = []
+  for sp in specs:
+    r = []
+    for ex, pred in probes:
+      try:
+        r.append(core.digest([np.asarray(a, np.float64).round(6).tolist() for a in mr.ref_stat(sp, {k: np.asarray(v) for k, v in ex.items()}, pred)[1:]]))
+      except Exception:  # pylint: disable=broad-except
+        r.append('n/a')
+    refs.append(r)
+  evals = 0
+  for sp, m, rf in zip(specs, built, refs):
+    row = {'spec': sp}
+    clones = {'copy': copy.copy(m), 'deepcopy': copy.deepcopy(m), 'pickle': pickle.loads(pickle.dumps(m)), 'replace': m.replace()}
+    for nm, cl in clones.items():
+      require(cl == m and hash(cl) == hash(m), 'a %s of a metric is not equal to it / hashes differently' % nm, case=row)
+      ex, pred = probes[0]
+      a = mr.stat_arrays(m.evaluate_example({k: jnp.asarray(np.asarray(v, np.int32)) for k, v in ex.items()}, jnp.asarray(np.asarray(pred, np.float32))))
+      b = mr.stat_arrays(cl.evaluate_example({k: jnp.asarray(np.asarray(v, np.int32)) for k, v in ex.items()}, jnp.asarray(np.asarray(pred, np.float32))))
+      require(all(np.array_equal(np.asarray(x), np.asarray(y)) for x, y in zip(a[1:], b[1:])), 'a %s of a metric computes another '
+              'statistic' % nm, case=row)
+      evals += 1
+  for i in range(len(specs)):
+    for j in range(i + 1, len(specs)):
+      if built[i] == built[j]:
+        require(refs[i] == refs[j], 'two metric objects with different definitions compare equal (%r vs %r)' % (specs[i], specs[j]),
+                case={'spec': specs[i], 'other': specs[j]})
+        require(hash(built[i]) == hash(built[j]), 'equal metric objects hash differently', case={'spec': specs[i], 'other': specs[j]})
+      evals += 1
+  return {'evals': evals, 'nontrivial': True, 'outcome': [fam, len(specs)]}
+
+
 def jit_path(case):
   """metrics.evaluate_batch is jitted with the metric object as a static (hashed/compared) argument. A group of
   metric objects that differ in exactly ONE constructor field is evaluated one after another, in one process, on the
@@ -295,8 +341,8 @@ def replaced(case):
   return {'evals': 3, 'nontrivial': True, 'outcome': [spec['name'], field]}
 
 
-SUBS = {'grid': grid, 'identities': identities, 'dtypes': dtypes, 'jit_path': jit_path, 'replaced': replaced}
-TIMEOUTS = {'grid': 600, 'identities': 300, 'dtypes': 600, 'jit_path': 900, 'replaced': 600}
+SUBS = {'grid': grid, 'identities': identities, 'dtypes': dtypes, 'protocol': protocol, 'jit_path': jit_path, 'replaced': replaced}
+TIMEOUTS = {'grid': 600, 'identities': 300, 'dtypes': 600, 'protocol': 600, 'jit_path': 900, 'replaced': 600}
 
 
 def decode_case(case):
@@ -376,6 +422,7 @@ def plan(ctx):
       cases.append({'spec': spec, 'family': 'seq', 'C': c, 'L': l, 'stride': stride})
   ctx.pmap('grid', cases, chunk=4)
   ctx.run('identities', [{'C': 2}, {'C': 3}, {'C': 4}])
+  ctx.run('protocol', [{'family': 'cls'}, {'family': 'seq'}])
   ctx.pmap('dtypes', [{'C': c, 'label_dtype': d, 'int_scores': c == 3} for c in (3, 20, 62, 130)
                       for d in ('uint8', 'int8', 'int16', 'uint16', 'int32') if c - 1 <= np.iinfo(d).max], chunk=2)
   lm3 = [None, [0.0, 0.0, '-inf'], ['-inf', 0.0, 0.0], [0.0, '-inf', 0.0], [0.0, 0.0, -1e9], [1.0, 0.0, -1.0]]
